@@ -15,8 +15,7 @@ SPEC = dict(
 
 
 def signature(m):
-    t = m["input"].split(" ")
-    return [t[0], "n=" + (t[1] if t[0] == "root" else "-")]
+    return [m["input"].split(" ")[0]]
 
 
 MANIFEST = dict(
